@@ -23,6 +23,10 @@ reply `[wf, sat, nVars, count|null, singleChecks, multiChecks, distinct, branche
   branches, conflicts, statOk : statistics of an instrumented DPLL run (non-triviality rule only)
               and whether its verdict equals `solve`'s
 
+optional 7th/8th arguments `lite` (bool: skip the reference DPLL – `sat` is then `null`) and `witness`
+(assignments known to the harness, e.g. a planted solution): the reply ends with `evalCnf` on each of them;
+the mirror's counter list ends with the number of `reduce_db` reductions
+
 request `["luby", n]` → `[luby 1, …, luby n]` (the regenerated loop with the proved fuel)
 -/
 namespace Solvor.Sat
@@ -61,38 +65,52 @@ def parseAsgs (v : Val) : Option (List AList) := do
 
 def asgVal (m : AList) : Val := Val.arr (m.map fun p => Val.arr [Val.int p.1, Val.int (if p.2 then 1 else 0)])
 
+/-- the reply to a `case` request; `lite` = skip the reference DPLL (large planted instances), `wit` =
+assignments known to the harness (e.g. the planted solution), checked with `evalCnf` -/
+def caseReply (f : List (List Int)) (as : List Int) (s1 ms : List AList) (we : Bool) (prm : Nat × Nat × Nat × Nat)
+    (lite : Bool) (wit : List AList) : String :=
+  let (mc, mr, sl, lf) := prm
+  let g := withAssumptions f as
+  let n := nVars f as
+  let sat : Option Bool := if lite then none else some (solve g)
+  let cnt : Option Nat := if we then some (enumModels (List.range' 1 n) g).length else none
+  let (r, br, cf) := if lite then (false, 0, 0) else dpllStat (size g + g.length + 1) g
+  -- the CDCL mirror (R_trace side)
+  let o := Cdcl.solve f as ⟨mc, mr, sl, lf⟩
+  -- every logged learned clause must be entailed by the clauses + the blocking clauses added before it
+  let (_, chk, bad) := if n ≤ 60 && !lite then
+      o.log.foldl (fun (acc : Cnf × Nat × Nat) e =>
+        let (db, chk, bad) := acc
+        if e.1 then (e.2.toList :: db, chk, bad)
+        else if entailsB db e.2.toList then (db, chk + 1, bad) else (db, chk + 1, bad + 1)) (f, 0, 0)
+    else (f, 0, 0)
+  let mSingle : List AList := match o.solution with | some m => [m] | none => []
+  let mMulti : List AList := o.solutions.getD []
+  let eqS := decide (mSingle = s1)
+  let eqM := decide (mMulti = ms)
+  let mirror := Val.arr [Val.str (if o.status == .UNBOUNDED then (if o.note == "" then "FUEL" else o.note) else o.status.name),
+    Val.ofOpt asgVal o.solution, Val.ofOpt (fun (x : List AList) => Val.int x.length) o.solutions,
+    Val.bool eqS, Val.bool eqM,
+    Val.arr [Val.int o.decisions, Val.int o.propagations, Val.int o.conflicts, Val.int o.restarts,
+      Val.int o.learnedTotal, Val.int o.iterations, Val.int o.fuel, Val.int o.reduced],
+    Val.arr ((mMulti.take 3).map asgVal), Val.arr [Val.int chk, Val.int bad]]
+  (Val.arr [Val.bool (wfB g), Val.ofOpt Val.bool sat, Val.int n, Val.ofOpt (fun (k : Nat) => Val.int k) cnt,
+    Val.arr (s1.map (checkVal f as)), Val.arr (ms.map (checkVal f as)), Val.bool (distinctB (List.range' 1 n) ms),
+    Val.int br, Val.int cf, Val.bool (lite || (some r == sat)), mirror,
+    Val.arr (wit.map fun m => Val.bool (evalCnf f as m))]).render
+
 def handle (line : String) : String :=
   match request line with
-  | some ("case", [cls, asm, single, multi, we, prm]) =>
+  | some ("case", cls :: asm :: single :: multi :: we :: prm :: rest) =>
     match cls.toIntss?, asm.toInts?, parseAsgs single, parseAsgs multi, we.toBool?, prm.toNats? with
     | some f, some as, some s1, some ms, some we, some [mc, mr, sl, lf] =>
-      let g := withAssumptions f as
-      let sat := solve g
-      let n := nVars f as
-      let cnt : Option Nat := if we then some (enumModels (List.range' 1 n) g).length else none
-      let (r, br, cf) := dpllStat (size g + g.length + 1) g
-      -- the CDCL mirror (R_trace side)
-      let o := Cdcl.solve f as ⟨mc, mr, sl, lf⟩
-      -- every logged learned clause must be entailed by the clauses + the blocking clauses added before it
-      let (_, chk, bad) := if n ≤ 60 then
-          o.log.foldl (fun (acc : Cnf × Nat × Nat) e =>
-            let (db, chk, bad) := acc
-            if e.1 then (e.2.toList :: db, chk, bad)
-            else if entailsB db e.2.toList then (db, chk + 1, bad) else (db, chk + 1, bad + 1)) (f, 0, 0)
-        else (f, 0, 0)
-      let mSingle : List AList := match o.solution with | some m => [m] | none => []
-      let mMulti : List AList := o.solutions.getD []
-      let eqS := decide (mSingle = s1)
-      let eqM := decide (mMulti = ms)
-      let mirror := Val.arr [Val.str (if o.status == .UNBOUNDED then (if o.note == "" then "FUEL" else o.note) else o.status.name),
-        Val.ofOpt asgVal o.solution, Val.ofOpt (fun (x : List AList) => Val.int x.length) o.solutions,
-        Val.bool eqS, Val.bool eqM,
-        Val.arr [Val.int o.decisions, Val.int o.propagations, Val.int o.conflicts, Val.int o.restarts,
-          Val.int o.learnedTotal, Val.int o.iterations, Val.int o.fuel],
-        Val.arr ((mMulti.take 3).map asgVal), Val.arr [Val.int chk, Val.int bad]]
-      (Val.arr [Val.bool (wfB g), Val.bool sat, Val.int n, Val.ofOpt (fun (k : Nat) => Val.int k) cnt,
-        Val.arr (s1.map (checkVal f as)), Val.arr (ms.map (checkVal f as)), Val.bool (distinctB (List.range' 1 n) ms),
-        Val.int br, Val.int cf, Val.bool (r == sat), mirror]).render
+      match rest with
+      | [] => caseReply f as s1 ms we (mc, mr, sl, lf) false []
+      | [lite, wit] =>
+        match lite.toBool?, parseAsgs wit with
+        | some lite, some wit => caseReply f as s1 ms we (mc, mr, sl, lf) lite wit
+        | _, _ => err "bad arguments"
+      | _ => err "bad arguments"
     | _, _, _, _, _, _ => err "bad arguments"
   | some ("luby", [n]) =>
     match n.toNat? with
